@@ -280,6 +280,11 @@ func (fx *FnExec) frameFormula(st *State, name string, cur Term, allowed map[str
 		// field addresses -(base*1024+k) of such objects
 		conds = append(conds, "(<= q.f "+allocBound+")", "(> q.f (- (* (+ "+allocBound+" 1) 1024)))", "(not (= q.f 0))")
 	}
+	if isrt == "Iface" {
+		// ghost state about an interface value that wraps an object allocated
+		// by this function did not exist for the caller
+		conds = append(conds, "(<= (ival q.f) "+allocBound+")")
+	}
 	if a != nil {
 		for _, ix := range a.idx {
 			conds = append(conds, "(not (= q.f "+ix+"))")
